@@ -34,10 +34,13 @@ import (
 
 const (
 	prop = "C04"
-	// known-finding id: under EnableMavlPrefix + EnableMemTree a MemSet whose root hash equals a committed root
-	// (same content recomputed at another height) replaces that root's entry in the process-global node cache
-	// by one whose children were never persisted (see TestKnown_MemTreePoisonedByPendingRoot).
-	knownPoison = "C04-memtree-pending-root"
+	// known-finding id: under EnableMavlPrefix + EnableMemTree, MemSet publishes the nodes of the pending tree into
+	// the process-global node cache (Tree.Hash). A node key carries the height at which the node was created but
+	// its hash covers only the content of its children, so a pending update that writes a pair again with the value
+	// it already has re-creates nodes whose cache key equals that of committed nodes while their children (keyed
+	// with the pending height) are never persisted; Rollback does not undo it. Reads and MemSets on committed roots
+	// then panic with ErrNodeNotExist (see TestKnown_MemTreePoisonedByPendingRoot).
+	knownPoison = "C04-memtree-pending-poison"
 )
 
 func TestMain(m *testing.M) {
@@ -120,7 +123,6 @@ func scratchDir() string {
 type verT struct {
 	content map[string]string
 	height  int64
-	heights map[int64]bool // committed roots: every height at which this root was persisted
 }
 
 type deadT struct {
@@ -145,9 +147,8 @@ func newModel() *model {
 func (m *model) commit(root string, v *verT) {
 	if _, ok := m.committed[root]; !ok {
 		m.corder = append(m.corder, root)
-		m.committed[root] = &verT{content: v.content, height: v.height, heights: map[int64]bool{}}
+		m.committed[root] = v
 	}
-	m.committed[root].heights[v.height] = true
 	delete(m.dead, root)
 }
 
@@ -356,9 +357,9 @@ type caseT struct {
 }
 
 type outcome struct {
-	nt, cutShort                      bool
+	nt                                bool
 	restarts, forks, identical, empty int
-	rewrites                          int
+	rewrites, skipped                 int
 }
 
 func runSequential(t lib.TB, test string, cs caseT) (res outcome) {
@@ -413,6 +414,23 @@ func runSequential(t lib.TB, test string, cs caseT) (res outcome) {
 				}
 				res.rewrites++
 			}
+			// The listed finding's class, decided on the model before the call: prefix + memTree and a MemSet
+			// batch that writes some pair with the value the parent already has. While the finding is listed such
+			// an update is left out of the history (it would poison the cache for the rest of the case); when it
+			// is not listed everything is executed and judged strictly.
+			if o.Op == "memset" && (cs.Cfg.Prefix || cs.Cfg.Prune) && cs.Cfg.MemTree && lib.Known(knownPoison) {
+				unchanged := false
+				for _, p := range o.KV {
+					if old, ok := pv.content[p[0]]; ok && old == p[1] {
+						unchanged = true
+					}
+				}
+				if unchanged {
+					lib.ExcludedKnown(knownPoison)
+					res.skipped++
+					continue
+				}
+			}
 			for _, p := range o.KV {
 				m.universe[p[0]] = true
 			}
@@ -443,16 +461,6 @@ func runSequential(t lib.TB, test string, cs caseT) (res outcome) {
 			if o.Op == "set" {
 				m.commit(string(root), v)
 				break
-			}
-			// signature of the listed finding, evaluated before anything can fail: prefix + memTree, a non-empty
-			// MemSet replying the hash of a committed root at a height at which that root was never persisted.
-			// While listed, the history ends here (the cache is poisoned from now on); otherwise it goes on and
-			// the oracle stays strict.
-			if cv := m.committed[string(root)]; cv != nil && len(o.KV) > 0 && !cv.heights[v.height] &&
-				(cs.Cfg.Prefix || cs.Cfg.Prune) && cs.Cfg.MemTree && lib.Known(knownPoison) {
-				lib.ExcludedKnown(knownPoison)
-				res.cutShort = true
-				return res
 			}
 			if _, again := m.pending[string(root)]; again {
 				res.identical++
@@ -561,7 +569,7 @@ func TestPropPendingNeverLeaks(t *testing.T) {
 			on   bool
 			name string
 		}{{cs.Cfg.Prefix || cs.Cfg.Prune, "cfg_prefix"}, {cs.Cfg.Prune, "cfg_prune"}, {cs.Cfg.MemTree, "cfg_memtree"}, {cs.Cfg.LevelDB, "cfg_leveldb"},
-			{res.restarts > 0, "restart"}, {res.forks > 0, "fork_same_parent"}, {res.identical > 0, "identical_pending_twice"}, {res.empty > 0, "empty_update"}, {res.rewrites > 0, "rewrite_unchanged_values"}, {res.nt, "nontrivial"}, {res.cutShort, "cut_short_at_known_finding"}} {
+			{res.restarts > 0, "restart"}, {res.forks > 0, "fork_same_parent"}, {res.identical > 0, "identical_pending_twice"}, {res.empty > 0, "empty_update"}, {res.rewrites > 0, "rewrite_unchanged_values"}, {res.nt, "nontrivial"}, {res.skipped > 0, "update_left_out_for_known_finding"}} {
 			if cl.on {
 				lib.Class(cl.name)
 			}
